@@ -88,10 +88,16 @@ Section Eqs.
       match eval a s with
       | (ROk va, s1) => match eval i s1 with
                         | (ROk vi, s2) =>
-                            (match va, vi with
-                             | VBytes b, VInt k => index_bytes Ob b k
-                             | _, _ => RFail (FUnmodelled "subscript")
-                             end, s2)
+                            match va, vi with
+                            | VBytes b, VInt k => (index_bytes Ob b k, s2)
+                            | (VList l | VTuple l), VInt k => (index_list Ob l k, s2)
+                            | VDict d, _ => (match dict_get Ob vi d with
+                                             | Some (Some v) => ROk v | Some None => RExc "KeyError"
+                                             | None => RFail (FUnmodelled "dict key") end, s2)
+                            | VNone, _ => (RExc "TypeError", s2)
+                            | VOpq _, _ => let '(r, w') := ext {| c_name := "[]"; c_kw := [] |} [va; vi] (world Ob W s2) in (r, set_world Ob W w' s2)
+                            | _, _ => (RFail (FUnmodelled "subscript"), s2)
+                            end
                         | other => other end
       | other => other end.
   Proof. reflexivity. Qed.
